@@ -208,4 +208,28 @@ def entryStartTree (bo : ByteOrder) (l : Level) : List LVal → Nat → Nat → 
   | [], _ + 1, p => p
   | e :: es, i + 1, p => entryStartTree bo l es i (p + (flattenL bo l e).length)
 
+/-! ### cursor ranges (documentation of `cursor_range` / `cursor_subrange`)
+
+  `cursor_range(c)` is the range of all entries `[0, size())`;
+  `cursor_subrange(c, pos)` is `[pos, size())`, precondition `pos < size()`;
+  `cursor_subrange(c, pos, count)` is `[pos, pos + count)`, preconditions
+  `pos < size()` and `count <= size() - pos`.  Each entry is created from the
+  cursor, which must be at the start of the entry (end of the group header for
+  entry 0, end of entry `i-1` for entry `i`); after a complete iteration in which
+  every entry is traversed the cursor is at the end of the last entry of the
+  range.  In a checked build a violated precondition is reported. -/
+
+/-- `(first index, number of entries)` of the range over a group of `n`
+    entries; `none`: precondition violated -/
+def rangeSpec (n : Nat) : RangeKind → Option (Nat × Nat)
+  | .all => some (0, n)
+  | .sub pos => if pos < n then some (pos, n - pos) else none
+  | .subn pos count => if pos < n ∧ count ≤ n - pos then some (pos, count) else none
+
+/-- the entries a complete iteration visits -/
+def rangeEntries (n : Nat) (k : RangeKind) : List Nat :=
+  match rangeSpec n k with
+  | some (s, l) => (List.range l).map (· + s)
+  | none => []
+
 end Sbepp.Spec.CursorProtocol
